@@ -33,7 +33,7 @@ CONF = {
     "C01": dict(kinds={"accept", "consumed", "fn", "rejected"} | COMMON_DEATH,
                 quick=[("core", {"huge_inputs": True}, 0.8), ("unicode", {"unicode_heavy": True}, 0.4), ("ws", {"ws_inject": True}, 1.0), MIX, SUITE], thorough=[("core", {"huge_inputs": True}, 1.0), ("errors", {}, 0.5), ("fields", {}, 0.5), ("unicode", {"unicode_heavy": True}, 0.5), ("ws", {"ws_inject": True}, 1.0), MIXT, SUITE]),
     "C02": dict(kinds={"tree", "substring"},
-                quick=[("fields", {}, 0.6), ("dupfields", {}, 1.2), ("strings", {"ws_inject": True}, 0.5), ("userfn", {}, 0.4), MIX, SUITE], thorough=[("fields", {}, 1.0), ("dupfields", {}, 1.0), ("strings", {"ws_inject": True}, 0.5), ("core", {}, 1.0), ("include", {}, 0.3), ("userfn", {}, 0.5), ("unicode", {"unicode_heavy": True}, 0.3), MIXT, SUITE]),
+                quick=[("fields", {}, 0.6), ("dupfields", {}, 1.2), ("strings", {"ws_inject": True}, 1.0), ("userfn", {}, 0.4), MIX, SUITE], thorough=[("fields", {}, 1.0), ("dupfields", {}, 1.0), ("strings", {"ws_inject": True}, 0.5), ("core", {}, 1.0), ("include", {}, 0.3), ("userfn", {}, 0.5), ("unicode", {"unicode_heavy": True}, 0.3), MIXT, SUITE]),
     "C04": dict(kinds={"panic", "crash", "boundary", "substring"},
                 quick=[("unicode", {"unicode_heavy": True}, 1.0), MIX], thorough=[("unicode", {"unicode_heavy": True}, 1.0), ("userfn", {"unicode_heavy": True}, 0.3), MIXT]),
     "C05": dict(kinds={"accept", "consumed", "tree", "variant"} | COMMON_DEATH,
